@@ -827,7 +827,8 @@ def completion_table(ctx, clause: str):
         return D
     bad, n_rows = None, 0
     try:
-        for costs in ((Fr(1), Fr(1), Fr(1)), (Fr(1), Fr(2), Fr(3)), (Fr(7), Fr(3), Fr(20)), (Fr(10), Fr(10), Fr(15))):
+        # (last: a substitution dearer than the other two by one part in 100000 - row minima that differ by that little are NOT ties)
+        for costs in ((Fr(1), Fr(1), Fr(1)), (Fr(1), Fr(2), Fr(3)), (Fr(7), Fr(3), Fr(20)), (Fr(10), Fr(10), Fr(15)), (Fr(100000), Fr(100000), Fr(100001))):
             for eos in (EOS, None):
                 for inc in ((True, False) if eos is not None else (False,)):
                     for bf in (False, True):
